@@ -4,21 +4,16 @@
    Proofs: ThreatsFacts1.v (count_one = sum over the groups of popcount(pmap), popcount(tmap)),
            ThreatsFacts2.v (adding a square that joins two edge-touching connected parts creates a spanning group),
            ThreatsFacts3.v (every set bit of a group's placement map pmap is such a square),
-           ThreatsFacts4.v (the placement is legal by the placement branch of MovePreallocated; the successor's road bits).
+           ThreatsFacts4.v (the placement is legal by the placement branch of MovePreallocated; the successor's road bits),
+           ThreatsFacts5.v (every set bit of a group's slide map tmap has a neighbouring free flat of the mover whose removal keeps
+                            the groups connected: conn_avoid, tmap_sound),
+           ThreatsFacts6.v (the slide branch of MovePreallocated for one piece moved one square: mv_slide1; slide_wins; threats_sound).
    `inv p` is C02's invariant (C01's representation invariant, no stray bits, reserves within a byte);
    `mv` is the bit-level model of MovePreallocated (repaired code), `win_details` the model of WinDetails.
 
-   FULL STATEMENT (DESIGN 5.19), not yet proved in full:
-     Theorem threats_sound : forall p wp wt bp bt, inv p -> 2 <= move p -> threats p = Some (wp, wt, bp, bt) ->
-       (to_move_white p = true  -> 0 < wp + wt -> mover has a stone or capstone -> exists m p', mv p m = Ok p' /\ road_win p' GWhite) /\
-       (to_move_white p = false -> 0 < bp + bt -> ...                           -> exists m p', mv p m = Ok p' /\ road_win p' GBlack).
-   PROVED: the placement half (counts wp / bp, the `pmap` of countOne) = C19_threats_sound_partial below.
-   MISSING: the one-step-slide half (counts wt / bp's companion bt, the `tmap`): a set bit of tmap is a square that is not a
-   wall/capstone and is adjacent to a flat of the mover outside the group(s); it needs the slide branch of move_prealloc for a
-   one-piece slide (C01's slide_refines gives legality; the successor's road bits lose the origin only if the origin was a
-   one-high stack or uncovers an opponent piece).  That half is covered by the check's one-ply search oracle only. *)
+   The full statement of DESIGN 5.19 is proved: C19_threats_sound.  The placement half alone is C19_threats_place_sound. *)
 From Coq Require Import NArith ZArith List Bool.
-Require Import Board Move GameOver Refine GameOverFacts2 GameOverFacts5 Eval EvalSpec Threats ThreatsFacts1 ThreatsFacts3 ThreatsFacts4.
+Require Import Board Flood Move GameOver Refine GameOverFacts2 GameOverFacts5 Eval EvalSpec Threats ThreatsFacts1 ThreatsFacts3 ThreatsFacts4 ThreatsFacts5 ThreatsFacts6.
 Import ListNotations.
 
 (* CountThreats' closure is the sum, over the groups in order, of the popcounts of that group's two maps. *)
@@ -40,13 +35,13 @@ Proof. exact pmap_sound. Qed.
 Print Assumptions C19_pmap_sound.
 
 (* The placement half of threats_sound. *)
-Theorem C19_threats_sound_partial : forall p wp wtt bp btt, inv p -> (2 <= move p)%Z -> threats p = Some (wp, wtt, bp, btt) ->
+Theorem C19_threats_place_sound : forall p wp wtt bp btt, inv p -> (2 <= move p)%Z -> threats p = Some (wp, wtt, bp, btt) ->
   (to_move_white p = true -> (0 < wp)%Z -> (0 < whiteStones p \/ 0 < whiteCaps p)%N ->
      exists m p', mv p m = Ok p' /\ road_win p' GWhite) /\
   (to_move_white p = false -> (0 < bp)%Z -> (0 < blackStones p \/ 0 < blackCaps p)%N ->
      exists m p', mv p m = Ok p' /\ road_win p' GBlack).
 Proof. exact threats_place_sound. Qed.
-Print Assumptions C19_threats_sound_partial.
+Print Assumptions C19_threats_place_sound.
 
 (* Non-vacuity: a reachable 3x3 position (4 plies) satisfying the invariant, White to move, wp = 1; the winning placement. *)
 Theorem C19_nonvacuous :
@@ -57,3 +52,39 @@ Theorem C19_nonvacuous :
     Some {| wd_over := true; wd_road := true; wd_winner := GWhite; wd_wflats := 3; wd_bflats := 2 |}.
 Proof. exact threats_place_nonvacuous. Qed.
 Print Assumptions C19_nonvacuous.
+
+(* Every set bit of the slide map of the k-th group is a square i that is not a wall or capstone, with a Grow-neighbour j that
+   carries a flat of the mover, such that EVERY set of road squares inside the board that keeps the mover's road squares other
+   than j and contains i has a spanning group. *)
+Theorem C19_tmap_sound : forall s, (3 <= s <= 8)%N -> forall p B, (forall i, N.testbit B i = true -> (i < s * s)%N) ->
+  forall gs, groups (precompute s) B = Some gs ->
+  forall pieces, (forall i, N.testbit pieces i = true -> N.testbit B i = true) ->
+  (forall i, N.testbit (t_nocs (precompute s) p) i = true -> (i < s * s)%N) ->
+  forall k g, nth_error gs k = Some g ->
+  forall i, N.testbit (snd (tmaps (precompute s) p gs pieces k g)) i = true ->
+    (i < s * s)%N /\ N.testbit (t_nocs (precompute s) p) i = true /\
+    exists j, N.testbit pieces j = true /\ nb (precompute s) j i /\
+      forall B2, (forall x, N.testbit B2 x = true -> (x < s * s)%N) ->
+                 (forall x, N.testbit (N.ldiff B (Conn.bit1 j)) x = true -> N.testbit B2 x = true) -> N.testbit B2 i = true ->
+                 exists gs2, groups (precompute s) B2 = Some gs2 /\ existsb (spans (precompute s)) gs2 = true.
+Proof. exact tmap_sound. Qed.
+Print Assumptions C19_tmap_sound.
+
+(* C19, the full statement: a positive placement-or-slide count of the side to move (ply >= 2, the mover has a piece left, which
+   holds whenever the game is not over) yields a legal move after which the engine reports: game over, by road, won by the mover. *)
+Theorem C19_threats_sound : forall p wp wtt bp btt, inv p -> (2 <= move p)%Z -> threats p = Some (wp, wtt, bp, btt) ->
+  (to_move_white p = true -> (0 < wp + wtt)%Z -> (0 < whiteStones p \/ 0 < whiteCaps p)%N ->
+     exists m p', mv p m = Ok p' /\ road_win p' GWhite) /\
+  (to_move_white p = false -> (0 < bp + btt)%Z -> (0 < blackStones p \/ 0 < blackCaps p)%N ->
+     exists m p', mv p m = Ok p' /\ road_win p' GBlack).
+Proof. exact threats_sound. Qed.
+Print Assumptions C19_threats_sound.
+
+(* Non-vacuity of the slide half: wp = 0, wt = 1, and the slide (type 8 = down, from c2 to c1) wins. *)
+Theorem C19_nonvacuous_slide :
+  invb ex_slide = true /\ move ex_slide = 6%Z /\ to_move_white ex_slide = true /\
+  threats ex_slide = Some (0, 1, 0, 0)%Z /\ game_over ex_slide = Some (false, GNone) /\
+  match mv ex_slide (ThreatsFacts4.M 8 2 1 1)%Z%N with Ok q => win_details q | _ => None end =
+    Some {| wd_over := true; wd_road := true; wd_winner := GWhite; wd_wflats := 3; wd_bflats := 2 |}.
+Proof. exact threats_slide_nonvacuous. Qed.
+Print Assumptions C19_nonvacuous_slide.
